@@ -291,11 +291,16 @@ func c18Case(c *Ctx, i int64) {
 	// (whatever state the previous stream was left in)
 	if chunk == 1 {
 		data2 := mixData(gi, 1000+gi.N(70000))
-		for scen := 0; scen < 4; scen++ {
+		for scen := 0; scen < 6; scen++ {
 			var frame2 []byte
 			var err2 error
 			bad := ""
 			src1 := &crSource{Source: &gen.Source{Data: data, Budget: 100000}}
+			if scen >= 4 {
+				// the first source fails (at its first / second call); the reader is reset after the error
+				src1.Source.FailAt = scen - 3
+				src1.Source.MaxChunk = 5000
+			}
 			src2 := &crSource{Source: &gen.Source{Data: data2, Budget: 100000}}
 			if c.Guard("CompressingReader.reuse", func() {
 				zr := lz4.NewCompressingReader(src1)
@@ -317,7 +322,13 @@ func c18Case(c *Ctx, i int64) {
 							break
 						}
 					}
-				default: // never read at all
+				case 3: // never read at all
+				default: // read with small buffers until the source error comes back
+					for k := 0; k < 1<<16; k++ {
+						if _, err := zr.Read(buf[:[]int{4096, 7, 100}[k%3]]); err != nil {
+							break
+						}
+					}
 				}
 				zr.Reset(src2)
 				for k := 0; ; k++ {
@@ -347,7 +358,7 @@ func c18Case(c *Ctx, i int64) {
 			res := crResult{frame: frame2, err: err2, badCall: bad}
 			saved := data
 			data = data2
-			judge(res, fmt.Sprintf("after-reset/scenario%d", scen), map[string]interface{}{"opts": o.String(), "first_source_len": len(saved), "second_source_len": len(data2), "scenario": []string{"abandoned mid-stream", "exact-length read", "read to EOF", "never read"}[scen]})
+			judge(res, fmt.Sprintf("after-reset/scenario%d", scen), map[string]interface{}{"opts": o.String(), "first_source_len": len(saved), "second_source_len": len(data2), "scenario": []string{"abandoned mid-stream", "exact-length read", "read to EOF", "never read", "source failed at call 1", "source failed at call 2"}[scen]})
 			data = saved
 			c.Cell(fmt.Sprintf("%s/src%d/reuse/scenario%d", o.String(), len(data), scen))
 		}
